@@ -68,9 +68,11 @@ class BaseTCPGateway(Gateway):
 class TCPGateway(BaseSyncGateway, BaseTCPGateway):
     """MySensors TCP gateway."""
 
-    def __init__(self, *args, **kwargs):
+    def __init__(self, *args, timeout=1.0, reconnect_timeout=10.0, **kwargs):
         """Set up TCP gateway."""
-        transport = SyncTransport(self, sync_connect, **kwargs)
+        transport = SyncTransport(
+            self, sync_connect, timeout=timeout, reconnect_timeout=reconnect_timeout
+        )
         super().__init__(transport, *args, **kwargs)
 
     def get_gateway_id(self):
@@ -119,11 +121,17 @@ def sync_connect(transport):
 class AsyncTCPGateway(BaseAsyncGateway, BaseTCPGateway):
     """MySensors async TCP gateway."""
 
-    def __init__(self, *args, **kwargs):
+    def __init__(self, *args, timeout=1.0, reconnect_timeout=10.0, **kwargs):
         """Set up TCP gateway."""
         self.cancel_check_conn = None
         protocol = AsyncTCPMySensorsProtocol
-        transport = AsyncTransport(self, async_connect, protocol=protocol, **kwargs)
+        transport = AsyncTransport(
+            self,
+            async_connect,
+            protocol=protocol,
+            timeout=timeout,
+            reconnect_timeout=reconnect_timeout,
+        )
         super().__init__(transport, *args, **kwargs)
 
     def check_connection(self):
